@@ -17,6 +17,7 @@ import DAVerif.Drv.SolutionsDrv
 import DAVerif.Drv.CallsDrv
 import DAVerif.Drv.Rename
 import DAVerif.Drv.PolarsDrv
+import DAVerif.Drv.C04Drv
 /-!
 Line-protocol driver: one JSON case per input line
   {"suite": "...", "id": n, "case": {...}}   →   {"id": n, "out": ...} | {"id": n, "bad": "reason"}
@@ -25,7 +26,7 @@ Total: a malformed or unknown case answers `bad`.
 open Lean DAVerif.Drv
 
 def allHandlers : List (String × Handler) :=
-  OSetDrv.handlers ++ CCDrv.handlers ++ OpsDrv.handlers ++ SqlDrv.handlers ++ SchemaDrv.handlers ++ EvalCacheDrv.handlers ++ OwnDrv.handlers ++ MethodsDrv.handlers ++ UsedDagDrv.handlers ++ EqDrv.handlers ++ ExprDrv.handlers ++ CDataDrv.handlers ++ TextDrv.handlers ++ DataSpaceDrv.handlers ++ SolutionsDrv.handlers ++ CallsDrv.handlers ++ RenameDrv.handlers ++ PolarsDrv.handlers
+  OSetDrv.handlers ++ CCDrv.handlers ++ OpsDrv.handlers ++ SqlDrv.handlers ++ SchemaDrv.handlers ++ EvalCacheDrv.handlers ++ OwnDrv.handlers ++ MethodsDrv.handlers ++ UsedDagDrv.handlers ++ EqDrv.handlers ++ ExprDrv.handlers ++ CDataDrv.handlers ++ TextDrv.handlers ++ DataSpaceDrv.handlers ++ SolutionsDrv.handlers ++ CallsDrv.handlers ++ RenameDrv.handlers ++ PolarsDrv.handlers ++ C04Drv.handlers
 
 def answer (line : String) : Json :=
   match Json.parse line with
